@@ -15,6 +15,7 @@ CONFIG = {
     "model_files": ["Generated/GC04.v", "Model/CopySpec.v", "Model/CopyTop.v"],
     "extract": "XC04.v",
     "ml_main": "c01_main.ml",
+    "harness_test": True,
     "harness": "c04",
     "case_to_replay": _c04_case,
     "timeout_quick": 600,
@@ -25,7 +26,7 @@ CONFIG = {
         "a source read is in flight from the call of Fetch until Close of the returned reader (for manifests Close also joins the cache push); a destination operation from call to return of Exists/Push/PushReference/Tag",
         "registry.Mounter destinations are modelled and exercised through an in-harness Mounter wrapper (PRNG decides whether a candidate repository has the blob); the upload inside Mount is one destination operation",
         "content.Successors = generator's edge list (parameter g_succ), as in C01",
-        "goroutine scheduling: theorems quantify over all interleavings of visible events accepted by the transition system; the runs use free-running goroutines with PRNG latencies/yields",
+        "goroutine scheduling: theorems quantify over all interleavings of visible events accepted by the transition system; the runs use free-running goroutines with PRNG latencies/yields and PRNG-controlled schedules under testing/synctest",
     ],
     "level_text": "Coq theorems over every trace accepted by the copyGraph transition system (all graphs, initial destinations, K, modes, interleavings): at every prefix at most K source reads and K destination operations in flight (K = 3 regenerated from copy.go when Concurrency <= 0); per node at most one source fetch and one push; PreCopy/PostCopy/OnCopySkipped at most once per node; a transferred node of a successful copy has exactly one PreCopy before and exactly one PostCopy after its push and no OnCopySkipped; PostCopy after the terminal notification of every successor; a failing callback excludes a successful return. Tied to copy.go by trace acceptance of recorded runs (contention-heavy budget) and an independent monitor (gauges, counters, order, error identity).",
     "level_note": "partial: the limiter hand-off protocol (region.End/Start, permit conservation) is observed through the in-flight gauges and the acceptor's active-task bound, not proved on a protocol model; 'the returned error is the callback's error' is checked by the oracle on every run (the theorem gives 'no successful return after a failing callback'); same store pairings as C01",
